@@ -38,12 +38,12 @@ def gen_env(r: random.Random, runner: Optional[str] = None) -> Dict[str, Any]:
 
 # construct name -> {type: production indices in the typed generators below}
 FEATURES: Dict[str, Dict[str, List[int]]] = {
-    "arith": {"int": [0, 1, 2]}, "divmod": {"int": [3]}, "cond": {"int": [4], "bool": [12], "str": [2]},
+    "arith": {"int": [0, 1, 2]}, "divmod": {"int": [3]}, "cond": {"int": [4], "bool": [12], "str": [2], "list": [5]},
     "size": {"int": [5, 8]}, "index": {"int": [6]}, "mapkey": {"int": [7]}, "host": {"int": [9]},
     "int_conv": {"int": [10]}, "cmp": {"bool": [0, 1, 2]}, "and_or": {"bool": [3, 4]},
     "not": {"bool": [5]}, "has": {"bool": [6]}, "macro_bool": {"bool": [7, 8]},
     "strfn": {"bool": [9]}, "matches": {"bool": [9]}, "in": {"bool": [10]}, "streq": {"bool": [11]},
-    "concat": {"str": [0], "list": [3]}, "string_conv": {"str": [1]}, "listlit": {"list": [0]},
+    "concat": {"str": [0], "list": [3]}, "dyn": {"list": [6]}, "string_conv": {"str": [1]}, "listlit": {"list": [0]},
     "map": {"list": [1]}, "filter": {"list": [2]}, "duration": {"bool": [13]},
     # not a construct but a preference among names: the package-relative spellings (var())
     "pkgname": {"int": [0, 1, 2], "bool": [0, 1, 2]},
@@ -134,7 +134,8 @@ class ExprGen:
             return f"{self.list_(d - 1)}[{r.choice([0, 0, 1, 2, 5])}]"
         if k == 7:
             mv = self.var("map")
-            key = r.choice(["k1", "k2", "nokey"])
+            # the absent key carries the salt: the error texts of different threads differ
+            key = r.choice(["k1", "k2", "nokey", f"nokey{self.salt}"])
             if mv is None:
                 return f'{{"k1": {self.int_(d - 1)}}}["{key}"]'
             return r.choice([f'{mv}["{key}"]', f"{mv}.{key}"])
@@ -174,9 +175,17 @@ class ExprGen:
                 return v
             n = r.randrange(0, 4)
             return "[" + ", ".join(str(self.const() + i) for i in range(n)) + "]"
-        k = self._pick("list", 5)
+        k = self._pick("list", 7)
         if k == 0:
             return "[" + ", ".join(self.int_(d - 1) for _ in range(r.randrange(1, 4))) + "]"
+        if k == 5:
+            # a list that is not a literal and not a plain variable: whatever the branch yields is
+            # the caller's own object when it is a bound variable
+            # (mostly over leaves: the result then *is* one of the caller's objects)
+            dd = 0 if r.random() < 0.7 else d - 1
+            return f"({self.bool_(d - 1)} ? {self.list_(dd)} : {self.list_(dd)})"
+        if k == 6:
+            return f"dyn({self.list_(0 if r.random() < 0.7 else d - 1)})"
         if k in (1, 2):
             src = self.list_(d - 1)
             v = self.macro_var()
@@ -330,16 +339,37 @@ def gen_value(r: random.Random, ty: str, salt: int = 0) -> Any:
     raise ValueError(ty)
 
 
+# values that compare (and hash) equal across CEL types: true == 1 == 1.0, false == 0 == 0.0
+TYPE_MIX = [0, 1, True, False, 0.0, 1.0, 2, 2.0]
+
+
+def equal_variant(r: random.Random, b: Dict[str, Any]) -> Dict[str, Any]:
+    """The same bindings with every small number / boolean replaced by a value of another type that
+    compares equal to it (what a cache keyed by the bindings cannot tell apart)."""
+    out: Dict[str, Any] = {}
+    for k, v in b.items():
+        alts = ([x for x in TYPE_MIX if x == v and type(x) is not type(v)]
+                if isinstance(v, (bool, int, float)) else [])
+        out[k] = r.choice(alts) if alts else v
+    return out
+
+
 def gen_bindings(r: random.Random, decls: Dict[str, str], salt: int = 0,
                  missing_share: float = 0.2, extra_share: float = 0.05,
-                 package_as_document: bool = False) -> Dict[str, Any]:
+                 package_as_document: bool = False, type_mix: bool = False,
+                 scalar_only: bool = False) -> Dict[str, Any]:
     b: Dict[str, Any] = {}
     if r.random() < 0.08 and not package_as_document:
         return b  # no bindings at all
     for name, ty in decls.items():
         if r.random() < missing_share:
             continue
+        if scalar_only and ty in ("list", "map"):
+            continue  # bindings that consist of scalars only (hashable as a whole)
         b[name] = gen_value(r, ty, salt)
+        if type_mix and ty == "int" and r.random() < 0.7:
+            # a value of another type than declared, equal to values of yet other types
+            b[name] = r.choice(TYPE_MIX)
     if r.random() < extra_share:
         b[r.choice(["zz", "a.zz", "extra"])] = gen_value(r, "int", salt)
     if r.random() < 0.03:
